@@ -13,7 +13,7 @@ from hypothesis import strategies as st
 from vlib import expr as E
 from vlib import world as W
 from vlib import histgen as H
-from vlib.common import Failure, drive
+from vlib.common import Failure, drive, guarded
 
 RULE = ("histories: 3..30 operations (assign value / expression / in-place / unregister / container "
         "overwrite / function task / linear knob / maintenance) generated with the model alongside; after "
@@ -293,7 +293,9 @@ def run_shapes(ctx):
         seed = ctx.derived_seed(1000 + i)
         case = {"kind": "shape", "shape": shape, "n": n, "perm_seed": seed,
                 "assign": [["leaf", seed % 97, 3.5], ["redef", seed % 89, -2.0], ["leaf", seed % 83, 11.0]]}
-        f = shape_case(case)
+        f, timed_out = guarded(ctx, shape_case, case, label=f"shape case ({shape}, n={n})")
+        if timed_out:
+            continue
         ctx.stats.case({"shape": shape, "n": n, "perm_seed": seed, "assign": case["assign"]}, n >= 50,
                        ["shape", f"shape:{shape}", "shape:n>=1000" if n >= 1000 else "shape:n<1000"])
         if f:
